@@ -376,6 +376,32 @@ class NDArr:
     def __pow__(self, o):
         return self._bin(o, lambda a, b: a ** b)
 
+    # --- in-place arithmetic writes into the shared buffer (views / aliases see it, as with numpy)
+    def _iop(self, o, f):
+        r = f(self, o)
+        if not isinstance(r, NDArr) or r._a.shape != self._a.shape:
+            return r
+        new = r._a
+        if getattr(self, "_intfixed", False):
+            w = _np.empty(new.shape, dtype=object)
+            for idx in _np.ndindex(new.shape):
+                w[idx] = _cast(new[idx], int)
+            new = w
+        self._a[...] = new
+        return self
+
+    def __iadd__(self, o):
+        return self._iop(o, lambda a, b: a + b)
+
+    def __isub__(self, o):
+        return self._iop(o, lambda a, b: a - b)
+
+    def __imul__(self, o):
+        return self._iop(o, lambda a, b: a * b)
+
+    def __itruediv__(self, o):
+        return self._iop(o, lambda a, b: a / b)
+
     def __neg__(self):
         return NDArr(-self._a)
 
